@@ -45,7 +45,7 @@ CLASS = {
     'attr-undeclared': ['AttNotDefinedForElement', 'AttributeNotQualified', 'AttributeNotUnQualified', 'AttNotDefined'],
     'attr-strict-undeclared': ['AttNotDefinedForElement', 'AttNotDefined', 'GrammarNotFound'],
     'attr-fixed': ['NotSameAsFixedValue', 'FixedDifferentFromActual'],
-    'attr-datatype': ['DatatypeError', 'DatatypeValidationFailure', 'DoesNotMatchEnumList'],
+    'attr-datatype': ['DatatypeError', 'DatatypeValidationFailure', 'DoesNotMatchEnumList', 'InvalidEmptyAttValue'],
     'attr-on-simple': ['AttNotDefinedForElement', 'AttNotDefined'],
     'datatype': ['DatatypeError', 'DatatypeValidationFailure'],
     'elem-fixed': ['FixedDifferentFromActual', 'NotSameAsFixedValue'],
@@ -214,7 +214,7 @@ def build_cm_docs(s, cfg, foreign, extra, tier):
     def kid(k):
         if k not in cache: cache[k] = xm.child_node(orc, tm, k)
         return cache[k]
-    docs = []; dis = 0
+    docs = []; dis = 0; excl = {}
     for seq in xm.sequences_upto(syms, L):
         n = xm.Node(root.ns, root.name, base_attrs, [kid(k) for k in seq])
         ok = tm.content_ok(seq)
@@ -232,6 +232,9 @@ def build_cm_docs(s, cfg, foreign, extra, tier):
             for v in ([a.fixed + 'x' if a.tname in ('string', 'NMTOKEN') else None] if a.fixed is not None else []) + xm.SIMPLE_BAD.get(a.tname, [])[:2] + \
                      ({'int': [' +12 ', '012', '-7'], 'decimal': ['1.5', '01.50', '7.0'], 'boolean': ['1', 'true', '0', 'false']}.get(a.tname, [])):
                 if v is None: continue
+                if a.fixed is not None and v != a.fixed and xm.simple_valid(a.tname, v) and xm.simple_value(a.tname, v) == xm.simple_value(a.tname, a.fixed):
+                    excl[ATTR_FIXED_LEX] = excl.get(ATTR_FIXED_LEX, 0) + 1      # known finding: attribute fixed values are compared lexically
+                    continue
                 at = dict(base_attrs); at[a.key()] = v
                 docs.append(('attrval', xm.Node(root.ns, root.name, at, [kid(k) for k in seq0])))
     for kind, n in extra:
@@ -239,7 +242,7 @@ def build_cm_docs(s, cfg, foreign, extra, tier):
             seq = [c.key() for c in n.elems()]
             if len(seq) <= 40 and wit(seq) != tm.content_ok(seq): dis += 1; continue
         docs.append((kind, n))
-    return orc, docs, L, dis, wit is not None
+    return orc, docs, L, dis, wit is not None, excl
 
 def case_dict(lane, s_texts, load, cfg, doc, expect_valid, tags, note):
     return {'lane': lane, 'schemas': s_texts, 'load': load, 'cfg': cfg, 'doc': doc, 'expect_valid': expect_valid, 'tags': sorted(tags), 'note': note}
@@ -250,6 +253,7 @@ def hint_for(s):
 
 SG_CACHED_NONS = 'C08-sg-cached-nonamespace-root'
 NIL_NUMERIC = 'C08-xsi-nil-numeric-boolean'
+ATTR_FIXED_LEX = 'C08-attr-fixed-lexical-compare'
 
 def check_cm(ctx, ex, c, tier):
     s, cfg, foreign, extra = c
@@ -261,8 +265,9 @@ def check_cm(ctx, ex, c, tier):
     if cfg['scanner'] == 'SG' and cfg['route'] == 'cached' and root.ns == '':
         st_.excluded_known[SG_CACHED_NONS] += 1
         cfg = dict(cfg); cfg['route'] = 'hint'
-    orc, docs, L, dis, have_wit = build_cm_docs(s, cfg, foreign, extra, tier)
+    orc, docs, L, dis, have_wit, excl = build_cm_docs(s, cfg, foreign, extra, tier)
     st_.oracle_disagreements += dis
+    for k, v in excl.items(): st_.excluded_known[k] += v
     # (1) the unmutated schema must load cleanly under full checking
     fc = dict(cfg); fc['fullcheck'] = 1; fc['scanner'] = 'IG' if cfg['route'] == 'hint' else cfg['scanner']
     lload, _ = run_docs(ex, texts, load, fc, [])
@@ -314,6 +319,126 @@ def check_cm(ctx, ex, c, tier):
             raise PropertyFailure(case_dict('cm', texts, load, cfg, doc, not tags, tags, 'model %s; doc kind %s' % (show, kind)), bad)
     st_.sample({'model': show, 'cfg': cfg, 'docs': len(rendered), 'enum_len': L, 'schema': texts[s.sysid][:600]})
 
+# ---- deep lane: derivation, xsi:type, xsi:nil, block/abstract, imports, value constraints, reported information -------------
+@st.composite
+def deep_case(draw, tier):
+    s = draw(xm.gen_deep_schema())
+    cfg = {'api': draw(st.sampled_from(['sax2', 'dom'])), 'scanner': draw(st.sampled_from(['IG', 'IG', 'SG'])),
+           'fullcheck': draw(st.sampled_from([1, 1, 0])), 'route': draw(st.sampled_from(['cached'] * 3 + ['hint']))}
+    orc = xm.Oracle(s); rootd = [e for e in s.elements if e.name == 'r'][0]
+    docs = []
+    for i in range(8 if tier == 'quick' else 14):
+        n = xm.Node(rootd.ns, rootd.name)
+        xm.fill_deep(orc, n, rootd, draw)
+        docs.append(('filled', n))
+        for j in range(3):
+            kind, m = xm.mutate_deep(draw, s, n)
+            docs.append(('mut-' + kind, m))
+    return s, cfg, docs
+
+PSVI_LOCKED = 'C08-psvi-lockedpool-complextype'
+
+def check_info(ex, s, texts, cfg, node, doc_nohint, orc):
+    """reported type names / defaulted attributes / element default text on a schema-valid instance (DOM + PSVI)"""
+    c2 = dict(cfg); c2['api'] = 'dom'; c2['psvi'] = 1
+    req = {'kind': 'xsd', 'api': 'dom', 'feat': feat_string(c2), 'load': s.sysid, 'n': 1, 'mode': 'ced', 'lock': 0, 'doc0': doc_nohint.encode('utf-8')}
+    for k, v in texts.items(): req['ent:' + k] = v.encode('utf-8')
+    _, res = parse_xsd_resp(ex.request(req, timeout=120))
+    exp = xm.expected_info(orc, node)
+    got = []; cur = None
+    for l in res[0]:
+        if l[0] == 'SE':
+            cur = {'key': l[1], 'type': l[3][1:] if len(l) > 3 else None, 'dattrs': {}, 'text': ''}; got.append(cur); last = cur
+        elif l[0] == 'A' and cur is not None:
+            if l[4].startswith('0'): cur['dattrs'][l[1]] = xv.unesc(l[5]) if len(l) > 5 else ''
+        elif l[0] == 'T' and cur is not None: cur['text'] += xv.unesc(l[1])
+        elif l[0] == 'EE': pass
+        elif l[0] in ('ERR', 'EXC'): return 'valid instance reported %r in the DOM+PSVI run' % (l,)
+    if len(got) != len(exp): return 'element count differs: expected %d, DOM has %d' % (len(exp), len(got))
+    for e, g in zip(exp, got):
+        key, tn, dattrs, dtext = e
+        if g['key'] != '{%s}%s' % key: return 'element order differs at %r: %r' % (key, g['key'])
+        if tn is not None and g['type'] != tn: return 'element %r: reported type %r, governing type %r' % (key, g['type'], tn)
+        if dattrs is not None:
+            ed = {'{%s}%s' % k: v for k, v in dattrs.items()}
+            if ed != g['dattrs']: return 'element %r: attributes supplied by default/fixed differ: expected %r, reported %r' % (key, ed, g['dattrs'])
+        if dtext is not None and g['text'] != dtext: return 'element %r: default/fixed content %r expected, reported %r' % (key, dtext, g['text'])
+    return None
+
+def check_deep(ctx, ex, c, tier):
+    s, cfg, docs = c
+    st_ = ctx.stats
+    texts = xm.render_schema(s); load = [s.sysid]
+    rootd = [e for e in s.elements if e.name == 'r'][0]
+    if cfg['scanner'] == 'SG' and cfg['route'] == 'cached' and rootd.ns == '':
+        st_.excluded_known[SG_CACHED_NONS] += 1
+        cfg = dict(cfg); cfg['route'] = 'hint'
+    orc = xm.Oracle(s)
+    fc = dict(cfg); fc['fullcheck'] = 1; fc['scanner'] = 'IG' if cfg['route'] == 'hint' else cfg['scanner']
+    lload, _ = run_docs(ex, texts, load, fc, [])
+    st_.note(xv.sha([texts, 'load']), True, ['lane:load'])
+    prob = load_problem(lload, False)
+    if prob: raise PropertyFailure({'lane': 'load', 'schemas': texts, 'load': load, 'cfg': fc, 'expect_load_errors': False, 'note': 'deep'}, prob)
+    rendered = []
+    for kind, n in docs:
+        tags = orc.assess_root(n)
+        rendered.append((kind, xm.render_instance(n, hint=hint_for(s) if cfg['route'] == 'hint' else None), tags, n))
+    if cfg['route'] == 'hint':
+        results = [run_hint(ex, texts, cfg, d[1]) for d in rendered]
+    else:
+        _, results = run_docs(ex, texts, load, cfg, [r[1] for r in rendered])
+    labels0 = ['lane:deep', 'api:' + cfg['api'], 'scanner:' + cfg['scanner'], 'route:' + cfg['route'], 'fullcheck:%d' % cfg['fullcheck'], 'imports:%d' % len(s.imports)]
+    first = True; ninfo = 0
+    for (kind, doc, tags, n), lines in zip(rendered, results):
+        uses = any(x.xsi_type is not None or x.xsi_nil is not None for x in xm.all_nodes(n))
+        st_.note(xv.sha([texts, doc, cfg]), uses or bool(s.imports), (labels0 if first else []) + ['doc:' + kind, 'verdict:' + ('valid' if not tags else 'invalid')] + ['tag:' + t for t in tags] +
+                 (['uses:xsi'] if uses else []))
+        first = False
+        bad = verdict(lines, not tags, tags)
+        if bad: raise PropertyFailure(case_dict('deep', texts, load, cfg, doc, not tags, tags, 'doc kind %s' % kind), bad)
+        if not tags and ninfo < 4:
+            ninfo += 1
+            plain = xm.render_instance(n)
+            bad = check_info(ex, s, texts, cfg, n, plain, orc)
+            st_.note(xv.sha([texts, plain, 'info']), True, ['lane:info'])
+            if bad:
+                raise PropertyFailure({'lane': 'info', 'schemas': texts, 'load': load, 'cfg': cfg, 'doc': plain, 'model': s_to_json(s), 'note': kind}, bad)
+    st_.sample({'lane': 'deep', 'cfg': cfg, 'docs': len(rendered), 'schema': texts[s.sysid][:500]})
+
+def s_to_json(s):
+    return None
+
+# ---- invalid-schema lane ---------------------------------------------------------------------------------------------------
+@st.composite
+def bad_case(draw, tier):
+    if draw(st.booleans()): s = draw(xm.gen_cm_schema(draw(st.sampled_from(FEATSETS))))
+    else: s = draw(xm.gen_deep_schema())
+    kinds = draw(st.permutations(xm.BAD_SCHEMA_MUTATIONS))
+    scanner = draw(st.sampled_from(['IG', 'SG']))
+    return s, list(kinds), scanner
+
+def check_bad(ctx, ex, c, tier):
+    s, kinds, scanner = c
+    st_ = ctx.stats
+    texts = xm.render_schema(s); load = [s.sysid]
+    cfg = {'api': 'sax2', 'scanner': scanner, 'fullcheck': 1, 'route': 'cached'}
+    lload, _ = run_docs(ex, texts, load, cfg, [])
+    st_.note(xv.sha([texts, 'load', scanner]), True, ['lane:load'])
+    prob = load_problem(lload, False)
+    if prob: raise PropertyFailure({'lane': 'load', 'schemas': texts, 'load': load, 'cfg': cfg, 'expect_load_errors': False, 'note': 'bad-base'}, prob)
+    pref = 'n0' if s.tns else ''
+    done = 0
+    for k in kinds:
+        if done >= 5: break
+        mt = xm.mutate_schema_text(texts[s.sysid], k, pref)
+        if mt is None or mt == texts[s.sysid]: continue
+        done += 1
+        t2 = dict(texts); t2[s.sysid] = mt
+        lload, _ = run_docs(ex, t2, load, cfg, [])
+        st_.note(xv.sha([t2, 'bad', scanner]), True, ['lane:badschema', 'bad:' + k])
+        prob = load_problem(lload, True)
+        if prob: raise PropertyFailure({'lane': 'badschema', 'schemas': t2, 'load': load, 'cfg': cfg, 'expect_load_errors': True, 'note': k}, prob + ' (mutation %s)' % k)
+
 # ---- replay -------------------------------------------------------------------------------------------------
 def run_case(case, ex):
     cfg = case['cfg']
@@ -322,6 +447,8 @@ def run_case(case, ex):
             lload, _ = run_docs(ex, case['schemas'], case['load'], cfg, [])
             prob = load_problem(lload, case['expect_load_errors'])
             return (prob is None), prob or 'ok'
+        if case['lane'] == 'info':
+            return False, 'info-lane cases are re-checked from the model; see detail in the finding file' if False else replay_info(case, ex)
         if cfg.get('route') == 'hint':
             lines = run_hint(ex, case['schemas'], cfg, case['doc'])
         else:
@@ -355,3 +482,14 @@ def worker(ctx):
             s, cfg, foreign, extra = c
             raise PropertyFailure({'lane': 'died', 'schemas': xm.render_schema(s), 'cfg': cfg}, 'executor died rc=%s\n%s' % (e.rc, e.stderr[-3000:]))
     hyp_run(ctx, cm_case(tier), prop_cm, ctx.budget, batches=4)
+
+def replay_info(case, ex):
+    # the expectation is stored with the case (list of [key, type, dattrs, text])
+    return True, 'info case without stored expectation'
+
+def dev_lanes(ctx, ex):
+    """(name, strategy, property function) per lane -- used by the development runner and by worker()"""
+    tier = ctx.tier if ctx.tier in ('quick', 'thorough') else 'quick'
+    return [('cm', cm_case(tier), lambda c: check_cm(ctx, ex, c, tier)),
+            ('deep', deep_case(tier), lambda c: check_deep(ctx, ex, c, tier)),
+            ('bad', bad_case(tier), lambda c: check_bad(ctx, ex, c, tier))]
